@@ -210,3 +210,221 @@ Proof.
   { unfold any_nil_end. rewrite has_app. cbn. rewrite orb_false_r. apply has_rev_setups. reflexivity. }
   rewrite A, B, C. reflexivity.
 Qed.
+
+(* ------------------------------------------------------------------ what the trace entitles a node to *)
+(* [produced nt c x p] (the left side of p1's CONS invariant) is exactly the number of x in the
+   specification's [supply nt c p]: only the unique feeder of c contributes *)
+Lemma cnt_pair_none : forall c x l, (forall d, In d l -> fst d <> c) -> cnt_pair c x l = 0.
+Proof.
+  intros c x l H. unfold cnt_pair. rewrite filter_none; auto.
+  intros i d Hi. unfold pair_is. apply nth_error_In in Hi. specialize (H d Hi).
+  replace (fst d =? c) with false by (symmetry; apply Nat.eqb_neq; auto). reflexivity.
+Qed.
+
+Lemma cnt_pair_not_target : forall nt c x m it o, ~ In c (targets (info nt m)) ->
+  cnt_pair c x (deliveries nt m it o) = 0.
+Proof.
+  intros. apply cnt_pair_none. intros d Hd E. subst. apply H. eapply deliveries_targets; eauto.
+Qed.
+
+Lemma cnt_pair_own : forall c x (f : Z -> item) es,
+  cnt_pair c x (map (fun e => (c, f e)) es) = count_item x (map f es).
+Proof.
+  intros. induction es as [|e es IH]; [reflexivity|].
+  cbn [map]. rewrite ExecBase.cnt_pair_cons, IH. cbn [count_item]. unfold pair_is. cbn [fst snd].
+  rewrite Nat.eqb_refl, (ExecBase.item_eqb_sym x (f e)). reflexivity.
+Qed.
+
+Lemma cnt_pair_fanout : forall c x es kids, NoDup kids -> In c kids ->
+  cnt_pair c x (flat_map (fun c' => map (fun e => (c', (e, 0%Z))) es) kids)
+  = count_item x (map (fun e => (e, 0%Z)) es).
+Proof.
+  intros c x es kids. induction kids as [|k ks IH]; intros Hnd Hin; [destruct Hin|].
+  inversion Hnd; subst. cbn [flat_map]. rewrite ExecBase.cnt_pair_app.
+  destruct (Nat.eq_dec k c) as [->|Hne].
+  - rewrite (cnt_pair_own c x (fun e => (e, 0%Z))).
+    rewrite (cnt_pair_none c x (flat_map _ ks)); [apply Nat.add_0_r|].
+    intros d Hd E. apply in_flat_map in Hd. destruct Hd as [c' [Hc' Hd]]. apply in_map_iff in Hd.
+    destruct Hd as [e [<- _]]. cbn in E. subst. contradiction.
+  - rewrite (cnt_pair_none c x (map _ es)).
+    + destruct Hin as [->|Hin]; [congruence|]. rewrite IH; auto.
+    + intros d Hd E. apply in_map_iff in Hd. destruct Hd as [e [<- _]]. cbn in E. congruence.
+Qed.
+
+Lemma cnt_pair_kids_none : forall c x es kids, ~ In c kids ->
+  cnt_pair c x (flat_map (fun c' => map (fun e => (c', (e, 0%Z))) es) kids) = 0.
+Proof.
+  intros. apply cnt_pair_none. intros d Hd E. apply in_flat_map in Hd. destruct Hd as [c' [Hc' Hd]].
+  apply in_map_iff in Hd. destruct Hd as [e [<- _]]. cbn in E. subst. contradiction.
+Qed.
+
+Lemma cnt_nat_notin : forall c l, ~ In c l -> cnt_nat c l = 0.
+Proof.
+  intros. unfold cnt_nat. rewrite filter_none; auto. intros i a Hi. apply nth_error_In in Hi.
+  apply Nat.eqb_neq. intro; subst; contradiction.
+Qed.
+
+Lemma cnt_nat_nodup : forall c l, NoDup l -> In c l -> cnt_nat c l = 1.
+Proof.
+  intros c l. induction l as [|a l IH]; intros Hnd Hin; [destruct Hin|].
+  inversion Hnd; subst. rewrite ExecBase.cnt_nat_cons. destruct Hin as [->|Hin].
+  - rewrite Nat.eqb_refl, cnt_nat_notin; auto.
+  - replace (c =? a) with false by (symmetry; apply Nat.eqb_neq; intro; subst; contradiction).
+    rewrite IH; auto.
+Qed.
+
+Lemma targets_oob : forall nt m, length nt <= m -> targets (info nt m) = [].
+Proof. intros. unfold info. rewrite nth_overflow by assumption. reflexivity. Qed.
+
+Lemma supply_cons : forall nt c e p, supply nt c (e :: p) = supply nt c [e] ++ supply nt c p.
+Proof.
+  intros. unfold supply. destruct (feeder_of nt c).
+  - apply (ExecBase.emitted_app [e] p).
+  - apply (ExecBase.results_app m [e] p).
+  - apply (ExecBase.failreps_app m [e] p).
+  - reflexivity.
+Qed.
+
+(* classification of a node by its feeder *)
+Inductive fed_by (nt : net) (c : nat) : feeder -> Prop :=
+| fed_source : In c (roots nt) -> fed_by nt c FSource
+| fed_results : forall m, m < length nt -> In c (nkids (info nt m)) -> nhandler (info nt m) <> Some c ->
+                ~ In c (roots nt) -> fed_by nt c (FResults m)
+| fed_fails : forall m, m < length nt -> nhandler (info nt m) = Some c -> ~ In c (nkids (info nt m)) ->
+              ~ In c (roots nt) -> fed_by nt c (FFails m)
+| fed_none : (forall m, ~ In c (targets (info nt m))) -> ~ In c (roots nt) -> fed_by nt c FNone.
+
+Lemma feeder_of_fed : forall nt c, wf_net nt = true -> c < length nt -> fed_by nt c (feeder_of nt c).
+Proof.
+  intros nt c Hwf Hc. unfold feeder_of.
+  destruct (nrole (info nt c)) eqn:Er.
+  - apply fed_source. apply root_role; auto.
+  - assert (Hnr : ~ In c (roots nt)) by (intro Hr; apply root_role in Hr; destruct Hr; congruence).
+    pose proof (find_parent_spec nt 0 c) as Hs. destruct (find_parent nt 0 c) as [|m|m|]; [contradiction| | |].
+    + destruct Hs as [A B]. rewrite Nat.sub_0_r in B. assert (Hm : m < length nt) by lia.
+      pose proof (wf_targets_NoDup nt Hwf m Hm) as Hnd. unfold targets in Hnd. fold (info nt m) in B.
+      apply fed_results; auto. intro Eh. rewrite Eh in Hnd.
+      apply (NoDup_app_disj _ _ _ c Hnd); auto. left; auto.
+    + destruct Hs as [A B]. rewrite Nat.sub_0_r in B. assert (Hm : m < length nt) by lia.
+      pose proof (wf_targets_NoDup nt Hwf m Hm) as Hnd. unfold targets in Hnd. fold (info nt m) in B.
+      apply fed_fails; auto. intro Hk. rewrite B in Hnd.
+      apply (NoDup_app_disj _ _ _ c Hnd); auto. left; auto.
+    + apply fed_none; auto. intros m Hin. destruct (Nat.lt_ge_cases m (length nt)) as [Hm|Hm].
+      * apply (Hs m Hm). exact Hin.
+      * rewrite targets_oob in Hin by assumption. destruct Hin.
+  - assert (Hnr : ~ In c (roots nt)) by (intro Hr; apply root_role in Hr; destruct Hr; congruence).
+    pose proof (find_parent_spec nt 0 c) as Hs. destruct (find_parent nt 0 c) as [|m|m|]; [contradiction| | |].
+    + destruct Hs as [A B]. rewrite Nat.sub_0_r in B. assert (Hm : m < length nt) by lia.
+      pose proof (wf_targets_NoDup nt Hwf m Hm) as Hnd. unfold targets in Hnd. fold (info nt m) in B.
+      apply fed_results; auto. intro Eh. rewrite Eh in Hnd.
+      apply (NoDup_app_disj _ _ _ c Hnd); auto. left; auto.
+    + destruct Hs as [A B]. rewrite Nat.sub_0_r in B. assert (Hm : m < length nt) by lia.
+      pose proof (wf_targets_NoDup nt Hwf m Hm) as Hnd. unfold targets in Hnd. fold (info nt m) in B.
+      apply fed_fails; auto. intro Hk. rewrite B in Hnd.
+      apply (NoDup_app_disj _ _ _ c Hnd); auto. left; auto.
+    + apply fed_none; auto. intros m Hin. destruct (Nat.lt_ge_cases m (length nt)) as [Hm|Hm].
+      * apply (Hs m Hm). exact Hin.
+      * rewrite targets_oob in Hin by assumption. destruct Hin.
+Qed.
+
+(* a node other than the feeder never delivers to c *)
+Lemma other_not_target : forall nt c m0 m, wf_net nt = true -> m0 < length nt ->
+  In c (targets (info nt m0)) -> m <> m0 -> ~ In c (targets (info nt m)).
+Proof.
+  intros nt c m0 m Hwf Hm0 Hc Hne Hin. destruct (Nat.lt_ge_cases m (length nt)) as [Hm|Hm].
+  - apply Hne. eapply wf_targets_unique; eauto.
+  - rewrite targets_oob in Hin by assumption. destruct Hin.
+Qed.
+
+Lemma root_not_target : forall nt c m, wf_net nt = true -> In c (roots nt) -> ~ In c (targets (info nt m)).
+Proof.
+  intros nt c m Hwf Hr Hin. destruct (Nat.lt_ge_cases m (length nt)) as [Hm|Hm].
+  - eapply wf_target_not_root; eauto.
+  - rewrite targets_oob in Hin by assumption. destruct Hin.
+Qed.
+
+Lemma results_single : forall m n it o,
+  results m [TRet n it o] = (if n =? m then match o with ORes es => map (fun e => (e, 0%Z)) es | _ => [] end else [])
+  /\ results m [TCb n it o] = (if n =? m then match o with ORes es => map (fun e => (e, 0%Z)) es | _ => [] end else []).
+Proof.
+  intros. unfold results, outcomes. cbn [flat_map]. destruct (n =? m); [|split; reflexivity].
+  destruct o; cbn; rewrite ?app_nil_r; split; reflexivity.
+Qed.
+
+Lemma failreps_single : forall m n it o,
+  failreps m [TRet n it o] = (if n =? m then match o with OFail err => [(fst it, err)] | _ => [] end else [])
+  /\ failreps m [TCb n it o] = (if n =? m then match o with OFail err => [(fst it, err)] | _ => [] end else []).
+Proof.
+  intros. unfold failreps, outcomes. cbn [flat_map]. destruct (n =? m); [|split; reflexivity].
+  destruct o; cbn; split; reflexivity.
+Qed.
+
+(* deliveries of the feeder m to its child c / its handler c *)
+Lemma deliveries_to_kid : forall nt c x m it o, NoDup (targets (info nt m)) -> In c (nkids (info nt m)) ->
+  nhandler (info nt m) <> Some c ->
+  cnt_pair c x (deliveries nt m it o)
+  = count_item x (match o with ORes es => map (fun e => (e, 0%Z)) es | _ => [] end).
+Proof.
+  intros nt c x m it o Hnd Hk Hh. destruct o as [es|err|]; cbn [deliveries].
+  - apply cnt_pair_fanout; auto. unfold targets in Hnd. eapply NoDup_app_l; eauto.
+  - destruct (nhandler (info nt m)) as [h|]; [|reflexivity].
+    apply cnt_pair_none. intros d [<-|[]] E. cbn in E. congruence.
+  - reflexivity.
+Qed.
+
+Lemma deliveries_to_handler : forall nt c x m it o, nhandler (info nt m) = Some c -> ~ In c (nkids (info nt m)) ->
+  cnt_pair c x (deliveries nt m it o)
+  = count_item x (match o with OFail err => [(fst it, err)] | _ => [] end).
+Proof.
+  intros nt c x m it o Hh Hk. destruct o as [es|err|]; cbn [deliveries].
+  - apply cnt_pair_kids_none; auto.
+  - rewrite Hh. rewrite ExecBase.cnt_pair_cons, ExecBase.cnt_pair_nil. unfold pair_is. cbn [fst snd count_item].
+    rewrite Nat.eqb_refl, (ExecBase.item_eqb_sym x). reflexivity.
+  - reflexivity.
+Qed.
+
+Lemma produced_by_supply : forall nt c x e, wf_net nt = true -> c < length nt ->
+  produced_by nt c x e = count_item x (supply nt c [e]).
+Proof.
+  intros nt c x e Hwf Hc. pose proof (feeder_of_fed nt c Hwf Hc) as Hf.
+  unfold supply. remember (feeder_of nt c) as f eqn:Ef. clear Ef.
+  destruct Hf as [Hr | m Hm Hk Hh Hnr | m Hm Hh Hk Hnr | Hno Hnr].
+  - (* a root: fed by the source only *)
+    destruct e; try reflexivity; cbn [produced_by].
+    + cbn. rewrite cnt_nat_nodup by (auto using wf_roots_NoDup).
+      rewrite (ExecBase.item_eqb_sym x). destruct (item_eqb _ _); reflexivity.
+    + rewrite cnt_pair_not_target by (apply root_not_target; auto). reflexivity.
+    + rewrite cnt_pair_not_target by (apply root_not_target; auto). reflexivity.
+  - (* a child of m *)
+    assert (Hct : In c (targets (info nt m))) by (unfold targets; apply in_or_app; auto).
+    destruct e; try reflexivity; cbn [produced_by].
+    + cbn. rewrite cnt_nat_notin by auto. destruct (item_eqb _ _); reflexivity.
+    + destruct (results_single m n it o) as [-> _]. destruct (Nat.eqb_spec n m) as [->|Hne].
+      * apply deliveries_to_kid; auto. apply wf_targets_NoDup; auto.
+      * rewrite cnt_pair_not_target by (eapply other_not_target; eauto). reflexivity.
+    + destruct (results_single m n it o) as [_ ->]. destruct (Nat.eqb_spec n m) as [->|Hne].
+      * apply deliveries_to_kid; auto. apply wf_targets_NoDup; auto.
+      * rewrite cnt_pair_not_target by (eapply other_not_target; eauto). reflexivity.
+  - (* the handler of m *)
+    assert (Hct : In c (targets (info nt m))) by (unfold targets; rewrite Hh; apply in_or_app; right; left; auto).
+    destruct e; try reflexivity; cbn [produced_by].
+    + cbn. rewrite cnt_nat_notin by auto. destruct (item_eqb _ _); reflexivity.
+    + destruct (failreps_single m n it o) as [-> _]. destruct (Nat.eqb_spec n m) as [->|Hne].
+      * apply deliveries_to_handler; auto.
+      * rewrite cnt_pair_not_target by (eapply other_not_target; eauto). reflexivity.
+    + destruct (failreps_single m n it o) as [_ ->]. destruct (Nat.eqb_spec n m) as [->|Hne].
+      * apply deliveries_to_handler; auto.
+      * rewrite cnt_pair_not_target by (eapply other_not_target; eauto). reflexivity.
+  - (* nobody feeds c *)
+    destruct e; try reflexivity; cbn [produced_by].
+    + cbn. rewrite cnt_nat_notin by auto. destruct (item_eqb _ _); reflexivity.
+    + rewrite cnt_pair_not_target by auto. reflexivity.
+    + rewrite cnt_pair_not_target by auto. reflexivity.
+Qed.
+
+Theorem produced_supply : forall nt c x p, wf_net nt = true -> c < length nt ->
+  produced nt c x p = count_item x (supply nt c p).
+Proof.
+  intros nt c x p Hwf Hc. induction p as [|e p IH]; [unfold supply; destruct (feeder_of nt c); reflexivity|].
+  rewrite supply_cons, ExecBase.count_item_app, <- IH, <- produced_by_supply by assumption. reflexivity.
+Qed.
